@@ -435,8 +435,7 @@ class Reader:
                 e2 = dict(env)
                 # cursor = the name compared in the loop test that is augmented in the body
                 augs = [n.target.id for n in ast.walk(s) if isinstance(n, ast.AugAssign) and isinstance(n.target, ast.Name)]
-                augs += [t.id for n in ast.walk(s) if isinstance(n, ast.Assign) for t in n.targets
-                         if isinstance(t, ast.Name) and any(isinstance(x, ast.Name) and x.id == t.id for x in ast.walk(n.value))]
+                augs += [t.id for n in ast.walk(s) if isinstance(n, ast.Assign) for t in n.targets if isinstance(t, ast.Name)]
                 names = [n.id for n in ast.walk(t) if isinstance(n, ast.Name) and n.id in augs]
                 if names and isinstance(env.get(names[0]), Poly):
                     lp.var = names[0]
